@@ -2,6 +2,13 @@
 
 package qbft
 
+import (
+	k1 "github.com/decred/dcrd/dcrec/secp256k1/v4"
+
+	"github.com/obolnetwork/charon/core"
+	pbv1 "github.com/obolnetwork/charon/core/corepb/v1"
+)
+
 // VerifQueued reports the number of duty instances the component tracks and the number of
 // messages queued in their outer receive buffers. Added by the verification overlay only: it is
 // the observation point "did a wire message influence consensus state" of the C05 harness.
@@ -14,4 +21,24 @@ func (c *Consensus) VerifQueued() (instances int, queued int) {
 	}
 
 	return len(c.mutable.instances), queued
+}
+
+// VerifQueuedFor reports the number of messages queued in the outer receive buffer of one duty
+// (0 when the component tracks no instance for it). Read-only, overlay only.
+func (c *Consensus) VerifQueuedFor(duty core.Duty) int {
+	c.mutable.Lock()
+	defer c.mutable.Unlock()
+
+	inst, ok := c.mutable.instances[duty]
+	if !ok {
+		return 0
+	}
+
+	return len(inst.RecvBuffer)
+}
+
+// VerifSignMsg exposes the package's own message signing function (pure: returns a signed copy)
+// so that the C05 harness builds authentic messages exactly the way a member does.
+func VerifSignMsg(msg *pbv1.QBFTMsg, key *k1.PrivateKey) (*pbv1.QBFTMsg, error) {
+	return signMsg(msg, key)
 }
